@@ -5,6 +5,8 @@ fn try_from(f: $t) -> Result<Self, Self::Error>
 /*@[f64] ensures fbig_from_float_ok(fmt64(), fields64(f), ret), @*/
 {
                 /*@ broadcast use round_int_axioms; @*/
+                // resource limit of Repr::new (exponent overflow, C16) DISCHARGED: i32/i64 mantissa, i16 exponent
+                /*@ proof { lemma_exp_room_prim(); } @*/
                 match f.decode() {
                     Ok((man, exp)) => {
                         let repr = Repr::new(man.into(), exp as _);
